@@ -55,8 +55,11 @@ def f16(spec, kind, message):
     (always the case for a zero buffer on an axis with coordinates >= 1e-3, since zero is emulated by 1e9)."""
     if spec["g"]["type"] in ("TimeStamp", "TimeInterval", "BoundingBox") or kind not in GEOS_KINDS:
         return False
-    if kind == "raised" and "KeyError" not in message:
-        return False  # the finding's exception is KeyError('coordinates') (GEOS returned an empty shape); anything else is news
+    if kind == "raised" and "KeyError" not in message and not ("ValidationError" in message and ("for MultiPolygon" in message or "for Polygon" in message)):
+        # the finding's exceptions: KeyError('coordinates') (GEOS returned an empty shape) and the ValidationError of the result model when
+        # the buffered shape collapsed to a line (a zero buffer is 1e-9 wide: narrower than one ulp of a coordinate of 1.6e7).  Anything
+        # else - a GEOSException, a TypeError - is news.
+        return False
     return scale_ratio(spec) >= 1e6
 
 
